@@ -472,10 +472,19 @@ func simC03Sets(c *Ctx) {
 			if c.G(2) != 0 {
 				return
 			}
-			addTo(fresh, r.member())
+			// (members the set does not hold yet, where there are any: an Add that changes nothing shows nothing)
+			absent := func(i int) *c03Member {
+				for try := 0; try < 6; try++ {
+					if mb := r.member(); !mb.exact || !r.vsm[i].exact[mb.key] {
+						return mb
+					}
+				}
+				return r.member()
+			}
+			addTo(fresh, absent(fresh))
 			for _, s := range sources {
 				if s != fresh {
-					addTo(s, r.member())
+					addTo(s, absent(s))
 				}
 			}
 			r.checkVS(fresh, "diverging Add (fresh set)")
@@ -513,6 +522,19 @@ func simC03Sets(c *Ctx) {
 			diverge(j, i)
 		case 4: // algebra on ValueSets
 			i, j := pickVS(), pickVS()
+			if i == j && len(r.vs) > 1 && c.G(2) == 0 {
+				j = (i + 1) % len(r.vs) // two different sets more often than chance gives with few of them
+			}
+			if c.G(4) == 0 {
+				// one operand is a new, empty set (the edge every shortcut is written for)
+				e := putVS(cty.NewValueSet(ety), newMset())
+				if c.G(2) == 0 {
+					j = e
+				} else {
+					i = e
+				}
+				c.Probe("c03.algebra-with-empty-set")
+			}
 			op := c.G(4)
 			var res cty.ValueSet
 			switch op {
